@@ -17,8 +17,34 @@ from .interp import _Break, _Continue, PathCut
 
 
 class LoopSpec:
-    def __init__(self, name, havoc, inv, facts=None, elem=None, ghost_step=None, init=None):
+    def __init__(self, name, havoc, inv, facts=None, elem=None, ghost_step=None, init=None, elem_post=None, all_ok=None, result=None):
         self.name, self.havoc, self.inv, self.facts, self.elem, self.ghost_step, self.init = name, havoc, inv, facts, elem, ghost_step, init
+        # list comprehensions `[g(x) for x in xs]` over a symbolic-length iterable (a map: no loop-carried state)
+        self.elem_post, self.all_ok, self.result = elem_post, all_ok, result
+
+    def run_comp(self, E, node, fr):
+        """Contract of a single-generator list comprehension without conditions: (a) for an ARBITRARY element the element expression is
+        evaluated once - its exceptions propagate as the comprehension's, its value must satisfy elem_post; (b) otherwise every element
+        expression returned normally (all_ok is assumed) and the comprehension's value is result(E, iterable)."""
+        if len(node.generators) != 1 or node.generators[0].ifs:
+            raise Unsupported("comprehension contract: one generator, no conditions")
+        gen = node.generators[0]
+        it = E.eval(gen.iter, fr)
+        n = self._length(E, it)
+        zn = n if not isinstance(n, int) else z3.IntVal(n)
+        if E.choose(2, "comp") == 0:
+            i = E.fresh_int("i")
+            E.assume(z3.And(i >= 0, i < zn))
+            x = self.elem(E, it, i) if self.elem else it.elem(E, i)
+            env = E.comp_env(fr) if hasattr(E, "comp_env") else fr
+            E.assign(gen.target, x, env)
+            v = E.eval(node.elt, env)
+            if self.elem_post:
+                self.elem_post(E, i, v)
+            raise PathCut()
+        if self.all_ok:
+            self.all_ok(E, it)
+        return self.result(E, it)
 
     def _length(self, E, it):
         from .interp import SRange
@@ -28,6 +54,8 @@ class LoopSpec:
             return it.length
         if isinstance(it, (list, tuple)):
             return len(it)
+        if hasattr(it, "elem") and hasattr(it, "length"):
+            return it.length
         raise Unsupported("loop contract on iterable %r" % (it,))
 
     def run_for(self, E, node, fr, it):
